@@ -75,6 +75,24 @@ def byte_quota_scenarios(prefix, extra_cfg):
     return out
 
 
+def fast_rate_scenarios(prefix, rng, extra_cfg):
+    """thousands of tokens per second (tick 100 us, timePerToken 1..4 ticks): the burst is drained, then requests keep coming
+    every tick or two for tens of milliseconds; waits are fractions of a millisecond"""
+    out = []
+    for i, (a, b) in enumerate([(5000, 100), (10000, 50), (2500, 40), (5000, 7)]):
+        for level in ("http", "set"):
+            steps = [{"op": "req", "src": "s1", "n": 1} for _ in range(b + 3)]
+            for _ in range(250):
+                steps.append({"op": "adv", "d": rng.choice([1, 1, 1, 2, 3])})
+                steps.append({"op": "req", "src": "s1", "n": rng.choice([1, 1, 1, 2])})
+            steps += [{"op": "retry", "src": "s1"}, {"op": "idle", "src": "s1"}]
+            cfg = {"tick_us": 100, "rates": [{"p": 10000, "a": a, "b": b}], "cap": 65536, "level": level, "extract": "custom",
+                   "qualified": True}
+            cfg.update(extra_cfg)
+            out.append({"id": "%s-fast-%d-%s" % (prefix, i, level), "cfg": cfg, "steps": steps})
+    return out
+
+
 def ttl_ticks(rates, tps):
     return ((max(r["p"] for r in rates) // tps) * 10 + 1) * tps
 
